@@ -274,6 +274,7 @@ type waitCase struct {
 	lifeAttempt    int    // which attempt the lifetime refers to
 	local          bool
 	unknown        int // 0 none, 1 plain, 2 remove flag, 3 delete flag
+	dup            bool // the same bundle is received a second time (from another peer) half-way through the wait
 }
 
 // waiting: the bundle arrives while nobody is connected, waits `residence`, then the relay appears with failing sends
@@ -364,7 +365,18 @@ func waiting(r *report.Run, algo string, c waitCase, idx int) {
 		wit := func() interface{} {
 			return map[string]interface{}{"algorithm": algo, "case": fmt.Sprintf("%+v", c), "accepted": fmt.Sprintf("%x", sp.wire), "trace": s.TraceStrings(), "sends": s.Sends()}
 		}
-		if c.residence > 0 {
+		if c.dup && !c.local {
+			// a duplicate reception must not change what the node knows about the first one
+			half := c.residence / 2
+			time.Sleep(time.Duration(half) * time.Millisecond)
+			s.Wait()
+			s.PeerUpWith("src2", func(p *nodesim.Peer) { p.Fail() })
+			_ = s.Deliver("src2", sp.wire)
+			s.PeerDown("src2")
+			time.Sleep(time.Duration(c.residence-half) * time.Millisecond)
+			s.Wait()
+			r.Count("duplicate_receptions", 1)
+		} else if c.residence > 0 {
 			time.Sleep(time.Duration(c.residence) * time.Millisecond)
 			s.Wait()
 		}
@@ -513,6 +525,12 @@ func TestCheck(t *testing.T) {
 	for unk := 1; unk <= 3; unk++ {
 		cases = append(cases, waitCase{hop: true, prev: true, unknown: unk, residence: 300})
 		cases = append(cases, waitCase{age: true, zero: true, unknown: unk})
+	}
+	for _, zero := range []bool{false, true} {
+		for _, res := range []uint64{1000, 5000} {
+			cases = append(cases, waitCase{hop: true, age: true, prev: true, zero: zero, residence: res, dup: true})
+		}
+		cases = append(cases, waitCase{age: true, zero: zero, residence: 4000, dup: true, lifeDelta: -1, lifeAttempt: 0})
 	}
 	for _, res := range []uint64{0, 2500} {
 		cases = append(cases, waitCase{local: true, hop: true, age: true, residence: res})
